@@ -44,7 +44,7 @@ def H(mod, name, profile="L", tier="quick", **kw):
 
 SPECS = {}
 # properties whose check has been run to completion on the unchanged tree and is claimed in MANIFEST.json
-READY = {"C02", "C03", "C04", "C05", "C09", "C10", "C11", "C17", "C19"}
+READY = {"C02", "C03", "C04", "C05", "C07", "C08", "C09", "C10", "C11", "C15", "C17", "C18", "C19", "C20"}
 
 # --------------------------------------------------------------------------------------------- C17
 SPECS["C17"] = dict(
@@ -223,13 +223,14 @@ TB_R = COMMON_TB + [
     "kani/shims/tokio, store, network (as profile L)",
     "kani/shims/ed25519-dalek: abstract hash that records the exact pre-image; ideal compile-level signature model (never claimed)",
     "REAL in this profile: crypto/src/lib.rs, base64, serde impls, bincode, 32/64-byte key/digest/signature types",
+    "core::str::from_utf8 stubbed to accept (base64 text is ASCII by construction) in the round-trip harnesses",
 ]
 # --------------------------------------------------------------------------------------------- C20
 SPECS["C20"] = dict(
     level="model_checking",
     technique="bounded symbolic execution of the real digest() functions with a pre-image-recording hash, and of real bincode round trips (Kani/CBMC, SAT)",
-    bounds="two arbitrary blocks with 0,1,2 payload digests each (equal lengths: injectivity; lengths 0/1, 1/2: separation); arbitrary votes, QCs, timeouts; all 32-byte fields and u64 rounds fully symbolic; vote round trip through real bincode",
-    outside="SHA-512/256 collision resistance (assumed: equal digests only for equal pre-images); payloads above 2; block/timeout/TC round trips through real bincode (thorough only, if they fit); the store path is covered with the bincode shim in profile L harnesses",
+    bounds="two arbitrary blocks with 0,1,2 payload digests each (equal lengths: injectivity; lengths 0/1, 1/2: separation); arbitrary votes, QCs, timeouts; all 32-byte fields and u64 rounds fully symbolic; Vote and Timeout round trips through the REAL bincode and base64 key encoding (Block: thorough tier; did not finish in 1500 s)",
+    outside="SHA-512/256 collision resistance (assumed: equal digests only for equal pre-images); payloads above 2; round trips of TCs and of blocks with more than 1 payload digest / 1 QC vote",
     trusted_base=TB_R,
     assumptions=["the real hash is collision resistant: digests coincide only if pre-images do"],
     harnesses=[
@@ -239,20 +240,26 @@ SPECS["C20"] = dict(
         H("messages_r", "c20_block_len_0_1", profile="R", timeout=900, symbolic="blocks with 0 and 1 payload digests", asserts="pre-images differ"),
         H("messages_r", "c20_block_len_1_2", profile="R", timeout=900, symbolic="blocks with 1 and 2 payload digests", asserts="pre-images differ"),
         H("messages_r", "c20_vote_qc_timeout", profile="R", timeout=900, symbolic="2 votes, 2 timeouts", asserts="vote/QC digest binds (block, round); QC digest == digest its votes sign; timeout digest binds (round, high-QC round); kinds separated"),
-        H("messages_r", "c20_vote_roundtrip", profile="R", timeout=1200, stubbing=True, symbolic="vote fields", asserts="real bincode serialize->deserialize keeps fields and digest"),
+        H("messages_r", "c20_vote_roundtrip", profile="R", timeout=900, mem_gb=20, stubbing=True, symbolic="vote fields", asserts="real bincode serialize->deserialize keeps fields and digest"),
+        H("messages_r", "c20_block_roundtrip", profile="R", tier="thorough", timeout=7200, mem_gb=30, stubbing=True, symbolic="block fields, 1 payload digest, 1 QC vote", asserts="real bincode round trip keeps fields and digest (the store / sync path encoding)"),
+        H("messages_r", "c20_timeout_roundtrip", profile="R", timeout=1200, mem_gb=20, stubbing=True, symbolic="timeout fields", asserts="real bincode round trip keeps fields and digest"),
     ],
 )
 # --------------------------------------------------------------------------------------------- C18 (encodings only)
 SPECS["C18"] = dict(
     level="model_checking",
     technique="bounded symbolic execution of the real key/signature encoders over the real base64 crate (Kani/CBMC, SAT)",
-    bounds="every 32-byte public key value (encode -> decode); every (part1, part2) signature value (flatten)",
+    bounds="every 32-byte public key and every 64-byte secret key (encode -> decode), every (part1, part2) signature value (flatten)",
     outside="PARTIAL CLAIM: ed25519 sign/verify soundness, bit-flip rejection and batch==individual are NOT decided (curve arithmetic and SHA-512 are out of reach of bit-blasting); secret-key round trip (thorough); JSON key/committee files (serde_json, file I/O)",
     trusted_base=TB_R,
     assumptions=[],
     harnesses=[
-        H("crypto_r", "c18_pk_roundtrip", profile="R", pkg="crypto", stubbing=True, timeout=1500, mem_gb=20, symbolic="32 key bytes", asserts="decode_base64(encode_base64(k)) == k; text length 44"),
+        H("crypto_r", "c18_pk_roundtrip", profile="R", pkg="crypto", stubbing=True, timeout=900, mem_gb=20, symbolic="32 key bytes", asserts="decode_base64(encode_base64(k)) == k; text length 44"),
         H("crypto_r", "c18_signature_layout", profile="R", pkg="crypto", symbolic="64 signature bytes", asserts="flatten() == part1 || part2"),
+        H("crypto_r", "c18_sk_roundtrip", profile="R", pkg="crypto", stubbing=True, timeout=900, mem_gb=20, symbolic="64 secret key bytes", asserts="decode_base64(encode_base64(k)) == k; text length 88"),
+        H("crypto_r", "c18_pk_roundtrip_head", profile="R", pkg="crypto", stubbing=True, timeout=900, mem_gb=16, symbolic="key bytes 0..6 (others zero)", asserts="decode_base64(encode_base64(k)) == k; text length 44"),
+        H("crypto_r", "c18_pk_roundtrip_mid", profile="R", pkg="crypto", stubbing=True, timeout=900, mem_gb=16, symbolic="key bytes 13..19", asserts="as head"),
+        H("crypto_r", "c18_pk_roundtrip_tail", profile="R", pkg="crypto", stubbing=True, timeout=900, mem_gb=16, symbolic="key bytes 26..32 (the padded tail)", asserts="as head"),
     ],
 )
 
@@ -292,4 +299,56 @@ SPECS["C12"] = dict(
 )
 
 # C16: see NOT_APPLICABLE in lib/gen_manifest.py (harness kept for reference as DBG entries)
+# --------------------------------------------------------------------------------------------- C15 (first part; extended below)
+SPECS["C15"] = dict(
+    level="model_checking",
+    technique="bounded symbolic execution of decoders and request handlers on arbitrary input with Rust's panic conditions as assertions (Kani/CBMC, SAT)",
+    bounds="consensus sync helper answering one request whose digest holds a block / 12 arbitrary bytes / nothing; PublicKey/SecretKey::decode_base64 on every ASCII string of length 4, 8, 44; BatchMaker::seal on empty and short transactions in the benchmark build; vote/TC/proposal handlers on invalid messages (C04 harnesses)",
+    outside="PARTIAL CLAIM: the TCP framing layer and receiver tasks; bincode decoding of whole ConsensusMessage/MempoolMessage values from arbitrary buffers with the real bincode (only the shim decoder is exercised, on 12 arbitrary bytes); strings of other lengths; allocation failure; stack depth",
+    trusted_base=TB_L,
+    assumptions=[],
+    harnesses=[
+        H("chelper_h", "chelper_foreign_bytes", stubbing=True, timeout=900, mem_gb=16, symbolic="12 arbitrary bytes stored under the requested digest (a mempool batch in the shared store)", asserts="the helper task neither panics nor stops"),
+        H("chelper_h", "chelper_block_member", stubbing=True, timeout=900, mem_gb=16, symbolic="stored block fields", asserts="no panic; reply = Propose(stored block)"),
+        H("chelper_h", "chelper_missing", stubbing=True, timeout=900, mem_gb=16, symbolic="digest", asserts="no panic, no reply"),
+        H("chelper_h", "chelper_block_nonmember", stubbing=True, timeout=900, mem_gb=16, symbolic="stored block fields", asserts="no panic, no reply to a non-member"),
+        H("batch_maker_h", "c11_seal_empty_tx", features="benchmark", stubbing=True, timeout=900, mem_gb=16, symbolic="one empty transaction, benchmark build", asserts="no panic"),
+        H("core2_h", "hv_single_nonmember", stubbing=True, timeout=900, mem_gb=16, symbolic="vote of a non-member", asserts="handler returns an error, no panic"),
+        H("core2_h", "htc_bad_sig", stubbing=True, timeout=900, mem_gb=16, symbolic="TC with a transplanted signature", asserts="handler returns an error, no panic"),
+        H("crypto_r", "c15_pk_decode_len4", profile="R", pkg="crypto", stubbing=True, timeout=900, mem_gb=16, symbolic="every 4-character ASCII string", asserts="PublicKey::decode_base64 returns Ok or Err, never panics"),
+        H("crypto_r", "c15_pk_decode_len8", profile="R", pkg="crypto", stubbing=True, timeout=900, mem_gb=16, symbolic="every 8-character ASCII string", asserts="as len4"),
+        H("crypto_r", "c15_sk_decode_len4", profile="R", pkg="crypto", stubbing=True, timeout=900, mem_gb=16, symbolic="every 4-character ASCII string", asserts="SecretKey::decode_base64 never panics"),
+        H("crypto_r", "c15_pk_decode_len44", profile="R", pkg="crypto", tier="thorough", stubbing=True, timeout=3000, mem_gb=24, symbolic="every 44-character ASCII string", asserts="as len4"),
+    ],
+)
+
+# --------------------------------------------------------------------------------------------- C07 (local obligations only)
+SPECS["C07"] = dict(
+    level="model_checking",
+    technique="bounded symbolic execution of the real Core::process_block (missing parent) and consensus Helper::run (Kani/CBMC, SAT)",
+    bounds="one block with an unknown parent (round, QC round, parent digest symbolic); one sync request against a store holding the block / nothing, from a member / non-member",
+    outside="PARTIAL CLAIM (local obligations only): convergence of a real lagging node, recursive ancestor fetching through the synchronizer task (select! coroutine), retry timing, behaviour under real TCP are NOT decided",
+    trusted_base=TB_L,
+    assumptions=["ideal signatures"],
+    harnesses=[
+        H("core2_h", "pb_missing_parent", stubbing=True, timeout=900, mem_gb=16, symbolic="block round, QC round, parent digest, node last_voted/high_qc", asserts="block parked at the synchronizer; not stored, not voted, no commit, round unchanged"),
+        H("chelper_h", "chelper_block_member", stubbing=True, timeout=900, mem_gb=16, symbolic="stored block fields", asserts="peer answered with exactly the bytes stored under the requested digest as a Propose message, at the requester's address"),
+        H("chelper_h", "chelper_missing", stubbing=True, timeout=900, mem_gb=16, symbolic="digest", asserts="unknown digest: no reply"),
+        H("chelper_h", "chelper_block_nonmember", stubbing=True, timeout=900, mem_gb=16, symbolic="stored block fields", asserts="unknown requester: no reply"),
+    ],
+)
+# --------------------------------------------------------------------------------------------- C08
+SPECS["C08"] = dict(
+    level="model_checking",
+    technique="bounded symbolic execution of the real Core::handle_proposal / MempoolDriver::verify with the batch present or absent (Kani/CBMC, SAT)",
+    bounds="a valid leader proposal of round 7 with one payload digest (symbolic) on a stored certified 2-chain, batch present / absent in the store; node last_voted_round and high_qc symbolic",
+    outside="PARTIAL CLAIM: payloads with more than one digest; the PayloadWaiter task that resumes the block (select! coroutine); the commit-path clause (delivered blocks have their batches) rests on this vote-path check plus the store-before-vote order, not on its own harness",
+    trusted_base=TB_L,
+    assumptions=["ideal signatures", "abstract hash collision-free on the digests of a run"],
+    harnesses=[
+        H("core2_h", "hp_payload_missing", stubbing=True, timeout=1200, mem_gb=20, symbolic="batch digest, node last_voted/high_qc", asserts="no vote, no store write, no commit; exactly one Synchronize(missing, author) and one Wait(missing, block)"),
+        H("core2_h", "hp_payload_present", stubbing=True, timeout=1200, mem_gb=20, symbolic="batch digest, node last_voted/high_qc", asserts="block processed and voted when the voting rule allows"),
+    ],
+)
+
 SPECS["DBG"] = dict(harnesses=[H("store_h", "dbg_store_min", profile="S", timeout=400, need_cover=False), H("config_h", "dbg_const_threshold", timeout=300, need_cover=False), H("core_h", "dbg_commit_one", timeout=200, need_cover=False, stubbing=True), H("core_h", "dbg_parent_one", timeout=200, need_cover=False, stubbing=True), H("core_h", "dbg_ser_de", timeout=120, need_cover=False, stubbing=True), H("core_h", "dbg_store_de", timeout=120, need_cover=False, stubbing=True)])
